@@ -553,3 +553,17 @@ fn encode_column(col: BasicTypeColumn, encode_opts: &EncodingOpts) -> api::Colum
         }
     }
 }
+
+// verification hooks: wrappers for private response-encoding functions (add-only, feature `verif`)
+#[cfg(feature = "verif")]
+pub fn verif_encode_column(col: BasicTypeColumn, encode_opts: &EncodingOpts) -> api::Column {
+    encode_column(col, encode_opts)
+}
+
+#[cfg(feature = "verif")]
+pub fn verif_error_status(err: QueryError) -> u16 {
+    match map_err_response(Err(err)) {
+        Ok(_) => 200,
+        Err(response) => response.status().as_u16(),
+    }
+}
